@@ -534,6 +534,10 @@ def run(ctx) -> None:
     ctx.rule(rule_purity)
     ctx.rule(rule_config)
     ctx.rule(rule_numeric_strings)
+    # a register file is exported through a BinaryImage tree (one leaf per register, the file's pattern in the gaps): the export of that
+    # tree - a short leaf is padded with ITS OWN zeros, not with the parent's pattern - is decided by C16's model of BinaryImage.export
+    from . import c16 as _c16
+    ctx.rule(lambda c: c.borrow(_c16.rule_export, "C16.export", "C11.image-export"))
     ctx.chk.assumptions = ["value_to_int/value_to_bytes as decided in C20", "alternative widths are modelled as the full width (alt-width behaviour is not decided)",
                            "not decided: arbitrary operation sequences (per-operation frame conditions are), config processors other than SHIFT_RIGHT"]
 
